@@ -122,7 +122,8 @@ let list_seg_probes = ["01"; "+0"; "-0"; ""; "x"; "1_0"; "0x1"; " 1"; "922337203
 let rec render : 'a. 'a api -> Buffer.t -> 'a -> unit = fun a b n ->
   let add = Buffer.add_string b in
   let kn = a.kind_name n in
-  add (Printf.sprintf "(%s;L%s;as:%s;" kn (a.len n) (a.asl n));
+  (* IsNull / IsAbsent: true / false for null, false / false for everything else a builder yields *)
+  add (Printf.sprintf "(%s;L%s;as:%s;na:%s;" kn (a.len n) (a.asl n) (if kn = "null" then "10" else "00"));
   let kids = ref [] in
   add "mi:";
   let keys = ref [] in
